@@ -94,11 +94,21 @@ def make_font(rng, lib, color=False, dotted=False):
     if color:
         names = [g["name"] for g in desc["glyphs"]][:2]
         layer = font.newLayer("color1")
-        for n in names:
+        for k, n in enumerate(names):
             gl = layer.newGlyph(n)
             pen = gl.getPen()
-            pen.moveTo((0, 0)); pen.lineTo((50, 0)); pen.lineTo((25, 50)); pen.closePath()
+            if k == 1:
+                # a colour layer glyph that is a (nested) composite of glyphs living only in the colour layer: their
+                # exploded copies are added glyphs too
+                pen.addComponent("cpair", (1, 0, 0, 1, 20, 0))
+            else:
+                pen.moveTo((0, 0)); pen.lineTo((50, 0)); pen.lineTo((25, 50)); pen.closePath()
             gl.width = 500
+        if len(names) > 1:
+            gp = layer.newGlyph("cpair"); gp.width = 300
+            gp.getPen().addComponent("cdot", (1, 0, 0, 1, 0, 10)); gp.getPen().addComponent("cdot", (-1, 0, 0, 1, 200, 10))
+            gd = layer.newGlyph("cdot"); gd.width = 100
+            pen = gd.getPen(); pen.moveTo((0, 0)); pen.lineTo((30, 0)); pen.lineTo((15, 30)); pen.closePath()
         font.lib["com.github.googlei18n.ufo2ft.colorLayerMapping"] = [["color1", 0]]
         font.lib["com.github.googlei18n.ufo2ft.colorPalettes"] = [[[1.0, 0.0, 0.0, 1.0]]]
     return desc, font
